@@ -125,8 +125,8 @@ package runner
 //@ func (*runner.runner).getTarget
 //@   requires r != nil
 //@   ensures  result != nil
-//@   ensures  registered: smap[r][iface(label)] == iface(result)
-//@   ensures  unique: old(smap)[r][iface(label)] != nil ==> iface(result) == old(smap)[r][iface(label)]
+//@   ensures  registered: smap[slot(r.targetMap)][iface(label)] == iface(result)
+//@   ensures  unique: old(smap)[slot(r.targetMap)][iface(label)] != nil ==> iface(result) == old(smap)[slot(r.targetMap)][iface(label)]
 //@   ensures  grow: forall o: ref, k: value :: old(smap)[o][k] != nil ==> smap[o][k] == old(smap)[o][k]
 //@   modifies smap
 
